@@ -21,7 +21,8 @@ type deferred struct {
 type frame struct {
 	p       *Path
 	fn      *ssa.Function
-	regs    map[ssa.Value]Value
+	regs    []Value
+	info    *fnInfo
 	block   *ssa.BasicBlock
 	prev    *ssa.BasicBlock
 	defers  []deferred
@@ -93,14 +94,68 @@ func (fr *frame) get(v ssa.Value) Value {
 	case *ssa.Builtin:
 		return v
 	}
-	r, ok := fr.regs[v]
+	i, ok := fr.info.idx[v]
 	if !ok {
 		panic(fr.p.unsupported(fmt.Sprintf("unbound ssa value %s (%T)", v.Name(), v)))
 	}
-	return r
+	return fr.regs[i]
 }
 
+type fnInfo struct {
+	idx map[ssa.Value]int
+	n   int
+}
+
+func (e *Engine) fnInfoOf(fn *ssa.Function) *fnInfo {
+	if v, ok := e.fnInfos.Load(fn); ok {
+		return v.(*fnInfo)
+	}
+	fi := &fnInfo{idx: map[ssa.Value]int{}}
+	add := func(v ssa.Value) {
+		fi.idx[v] = fi.n
+		fi.n++
+	}
+	for _, p := range fn.Params {
+		add(p)
+	}
+	for _, f := range fn.FreeVars {
+		add(f)
+	}
+	for _, b := range fn.Blocks {
+		for _, ins := range b.Instrs {
+			if v, ok := ins.(ssa.Value); ok {
+				add(v)
+			}
+		}
+	}
+	if fn.Recover != nil {
+		for _, ins := range fn.Recover.Instrs {
+			if v, ok := ins.(ssa.Value); ok {
+				if _, have := fi.idx[v]; !have {
+					add(v)
+				}
+			}
+		}
+	}
+	e.fnInfos.Store(fn, fi)
+	return fi
+}
+
+func (fr *frame) set(v ssa.Value, x Value) { fr.regs[fr.info.idx[v]] = x }
+
 func (p *Path) constVal(c *ssa.Const) Value {
+	if v, ok := p.w.consts[c]; ok {
+		return v
+	}
+	v := p.constVal1(c)
+	switch v.(type) {
+	case *Term, Str, Float:
+		p.w.consts[c] = v
+	}
+	return v
+}
+
+func (p *Path) constVal1(c *ssa.Const) Value {
 	t := c.Type()
 	if c.Value == nil {
 		return p.zero(t)
@@ -179,12 +234,13 @@ func (p *Path) callSSA(fn *ssa.Function, args []Value, env []Value) Value {
 	if len(p.frames) > maxDepth {
 		panic(pathAbort{"inconclusive", "unwind: call depth exceeded" + p.where()})
 	}
-	fr := &frame{p: p, fn: fn, regs: make(map[ssa.Value]Value, 16), env: env}
+	fi := p.e.fnInfoOf(fn)
+	fr := &frame{p: p, fn: fn, regs: make([]Value, fi.n), info: fi, env: env}
 	for i, prm := range fn.Params {
-		fr.regs[prm] = args[i]
+		fr.set(prm, args[i])
 	}
 	for i, fv := range fn.FreeVars {
-		fr.regs[fv] = env[i]
+		fr.set(fv, env[i])
 	}
 	p.frames = append(p.frames, fr)
 	p.fnCount[fn] = len(fn.Blocks)
@@ -304,7 +360,7 @@ func (fr *frame) exec() {
 				nphi++
 			}
 			for i := 0; i < nphi; i++ {
-				fr.regs[blk.Instrs[i].(*ssa.Phi)] = vals[i]
+				fr.set(blk.Instrs[i].(*ssa.Phi), vals[i])
 			}
 		}
 		jumped := false
@@ -314,6 +370,9 @@ func (fr *frame) exec() {
 				panic(pathAbort{"inconclusive", fmt.Sprintf("unwind: step budget %d exceeded%s", p.e.cfg.MaxSteps, p.where())})
 			}
 			fr.cur = ins
+			if p.fnSteps != nil {
+				p.fnSteps[fr.fn]++
+			}
 			if fr.step(ins) {
 				jumped = true
 				break
@@ -332,20 +391,20 @@ func (fr *frame) step(ins ssa.Instruction) bool {
 	switch ins := ins.(type) {
 	case *ssa.DebugRef:
 	case *ssa.UnOp:
-		fr.regs[ins] = p.unop(ins, fr.get(ins.X))
+		fr.set(ins, p.unop(ins, fr.get(ins.X)))
 	case *ssa.BinOp:
-		fr.regs[ins] = p.binop(ins.Op, ins.X.Type(), fr.get(ins.X), fr.get(ins.Y), ins.Y.Type())
+		fr.set(ins, p.binop(ins.Op, ins.X.Type(), fr.get(ins.X), fr.get(ins.Y), ins.Y.Type()))
 	case *ssa.Call:
 		fn, args := fr.prepareCall(&ins.Call)
-		fr.regs[ins] = p.callFunction(fn, args, ins)
+		fr.set(ins, p.callFunction(fn, args, ins))
 	case *ssa.ChangeInterface:
-		fr.regs[ins] = fr.get(ins.X)
+		fr.set(ins, fr.get(ins.X))
 	case *ssa.ChangeType:
-		fr.regs[ins] = fr.get(ins.X)
+		fr.set(ins, fr.get(ins.X))
 	case *ssa.Convert:
-		fr.regs[ins] = p.conv(ins.Type(), ins.X.Type(), fr.get(ins.X))
+		fr.set(ins, p.conv(ins.Type(), ins.X.Type(), fr.get(ins.X)))
 	case *ssa.MultiConvert:
-		fr.regs[ins] = p.conv(ins.Type(), ins.X.Type(), fr.get(ins.X))
+		fr.set(ins, p.conv(ins.Type(), ins.X.Type(), fr.get(ins.X)))
 	case *ssa.SliceToArrayPointer:
 		s := fr.get(ins.X).(Slice)
 		n := int(ins.Type().Underlying().(*types.Pointer).Elem().Underlying().(*types.Array).Len())
@@ -353,19 +412,19 @@ func (fr *frame) step(ins ssa.Instruction) bool {
 			p.goPanicf("slice-to-array", "cannot convert slice with length %d to array of length %d", len(s), n)
 		}
 		if s == nil {
-			fr.regs[ins] = Ptr(nil)
+			fr.set(ins, Ptr(nil))
 		} else {
 			// the array pointer aliases the slice's backing store
 			cell := new(Value)
 			*cell = Array(s[:n:n])
-			fr.regs[ins] = Ptr(cell)
+			fr.set(ins, Ptr(cell))
 		}
 	case *ssa.MakeInterface:
-		fr.regs[ins] = Iface{t: ins.X.Type(), v: copyVal(fr.get(ins.X))}
+		fr.set(ins, Iface{t: ins.X.Type(), v: copyVal(fr.get(ins.X))})
 	case *ssa.Extract:
-		fr.regs[ins] = fr.get(ins.Tuple).(Tuple)[ins.Index]
+		fr.set(ins, fr.get(ins.Tuple).(Tuple)[ins.Index])
 	case *ssa.Slice:
-		fr.regs[ins] = p.sliceOp(ins, fr.get(ins.X), fr.opt(ins.Low), fr.opt(ins.High), fr.opt(ins.Max))
+		fr.set(ins, p.sliceOp(ins, fr.get(ins.X), fr.opt(ins.Low), fr.opt(ins.High), fr.opt(ins.Max)))
 	case *ssa.Return:
 		switch len(ins.Results) {
 		case 0:
@@ -416,7 +475,7 @@ func (fr *frame) step(ins ssa.Instruction) bool {
 	case *ssa.Alloc:
 		cell := new(Value)
 		*cell = p.zero(ins.Type().Underlying().(*types.Pointer).Elem())
-		fr.regs[ins] = Ptr(cell)
+		fr.set(ins, Ptr(cell))
 	case *ssa.MakeSlice:
 		ln := p.concretize(p.asBV64(fr.get(ins.Len)), "make len")
 		cp := p.concretize(p.asBV64(fr.get(ins.Cap)), "make cap")
@@ -434,23 +493,23 @@ func (fr *frame) step(ins ssa.Instruction) bool {
 				s[i] = copyVal(z)
 			}
 		}
-		fr.regs[ins] = s[:ln]
+		fr.set(ins, s[:ln])
 	case *ssa.MakeMap:
-		fr.regs[ins] = &Map{}
+		fr.set(ins, &Map{})
 	case *ssa.MakeChan:
-		fr.regs[ins] = &Opaque{kind: "chan"}
+		fr.set(ins, &Opaque{kind: "chan"})
 	case *ssa.Range:
 		x := fr.get(ins.X)
 		switch x := x.(type) {
 		case *Map:
-			fr.regs[ins] = &MapIter{m: x, i: 0}
+			fr.set(ins, &MapIter{m: x, i: 0})
 		case Str:
-			fr.regs[ins] = &StrIter{s: x}
+			fr.set(ins, &StrIter{s: x})
 		default:
 			panic(p.unsupported(fmt.Sprintf("range over %T", x)))
 		}
 	case *ssa.Next:
-		fr.regs[ins] = p.next(ins, fr.get(ins.Iter))
+		fr.set(ins, p.next(ins, fr.get(ins.Iter)))
 	case *ssa.FieldAddr:
 		x := fr.get(ins.X).(Ptr)
 		if x == nil {
@@ -460,23 +519,23 @@ func (fr *frame) step(ins ssa.Instruction) bool {
 		if !ok {
 			panic(p.unsupported(fmt.Sprintf("FieldAddr on %T (%s)", *x, ins.X.Type())))
 		}
-		fr.regs[ins] = Ptr(&s[ins.Field])
+		fr.set(ins, Ptr(&s[ins.Field]))
 	case *ssa.Field:
-		fr.regs[ins] = copyVal(fr.get(ins.X).(Struct)[ins.Field])
+		fr.set(ins, copyVal(fr.get(ins.X).(Struct)[ins.Field]))
 	case *ssa.IndexAddr:
 		x := fr.get(ins.X)
 		idx := p.asBV64(fr.get(ins.Index))
 		switch x := x.(type) {
 		case Slice:
 			i := p.boundsIndex(idx, len(x))
-			fr.regs[ins] = Ptr(&x[i])
+			fr.set(ins, Ptr(&x[i]))
 		case Ptr:
 			if x == nil {
 				p.goPanicf("nil-deref", "nil pointer dereference (array index)")
 			}
 			a := (*x).(Array)
 			i := p.boundsIndex(idx, len(a))
-			fr.regs[ins] = Ptr(&a[i])
+			fr.set(ins, Ptr(&a[i]))
 		default:
 			panic(p.unsupported(fmt.Sprintf("IndexAddr on %T", x)))
 		}
@@ -485,7 +544,7 @@ func (fr *frame) step(ins ssa.Instruction) bool {
 		idx := p.asBV64(fr.get(ins.Index))
 		switch x := x.(type) {
 		case Array:
-			fr.regs[ins] = copyVal(p.readIndex(idx, []Value(x)))
+			fr.set(ins, copyVal(p.readIndex(idx, []Value(x))))
 		case Str:
 			if x.sym != nil {
 				panic(p.unsupported("index of structured string"))
@@ -494,12 +553,12 @@ func (fr *frame) step(ins ssa.Instruction) bool {
 			for i, b := range x.b {
 				vs[i] = b
 			}
-			fr.regs[ins] = p.readIndex(idx, vs)
+			fr.set(ins, p.readIndex(idx, vs))
 		default:
 			panic(p.unsupported(fmt.Sprintf("Index on %T", x)))
 		}
 	case *ssa.Lookup:
-		fr.regs[ins] = p.lookup(ins, fr.get(ins.X), fr.get(ins.Index))
+		fr.set(ins, p.lookup(ins, fr.get(ins.X), fr.get(ins.Index)))
 	case *ssa.MapUpdate:
 		m := fr.get(ins.Map).(*Map)
 		if m == nil {
@@ -507,13 +566,13 @@ func (fr *frame) step(ins ssa.Instruction) bool {
 		}
 		p.mapSet(m, fr.get(ins.Key), copyVal(fr.get(ins.Value)))
 	case *ssa.TypeAssert:
-		fr.regs[ins] = p.typeAssert(ins, fr.get(ins.X).(Iface))
+		fr.set(ins, p.typeAssert(ins, fr.get(ins.X).(Iface)))
 	case *ssa.MakeClosure:
 		var env []Value
 		for _, b := range ins.Bindings {
 			env = append(env, fr.get(b))
 		}
-		fr.regs[ins] = &Closure{fn: ins.Fn.(*ssa.Function), env: env}
+		fr.set(ins, &Closure{fn: ins.Fn.(*ssa.Function), env: env})
 	case *ssa.Select, *ssa.Send:
 		panic(p.unsupported("channel operation"))
 	default:
